@@ -1,6 +1,6 @@
 (** Protocol operations for C01 (see Lib/Val.v). *)
 From Coq Require Import ZArith List Bool String.
-From Low Require Import Lib.Bits Lib.BitSeq Lib.Val Model.Rank Spec.RankSpec.
+From Low Require Import Lib.Bits Lib.BitSeq Lib.Val Model.Rank Spec.RankSpec Run.RankWideOps.
 Import ListNotations.
 Open Scope string_scope.
 Open Scope Z_scope.
@@ -9,7 +9,7 @@ Definition in_range (ws : list Z) (i : Z) : bool := (0 <=? i) && (i <? 64 * zlen
 
 Definition vpairZ (p : Z * Z) : val := VL [VZ (fst p); VZ (snd p)].
 
-Definition ops_C01 : list opdef := [
+Definition ops_C01_core : list opdef := [
   {| op_name := "bitmap.IndexRank64";
      op_run := fun a => match a with
        | [ws; tr] => match as_zs ws, as_bool tr with
@@ -82,3 +82,6 @@ Definition ops_C01 : list opdef := [
            | Some ws, Some i => vpairZ (spec_Rank ws i) | _, _ => VBad end
        | _ => VBad end) |}
 ].
+
+(** the widening round: any int32 position, laws, two-piece bitmaps, side-by-side indexes, histories *)
+Definition ops_C01 : list opdef := (ops_C01_core ++ ops_C01_wide)%list.
